@@ -49,7 +49,7 @@ def jobs(tier):
     for (m, n) in [(2, 3), (3, 1), (0, 2), (1, 4)]:
         J.extend(R("trace_transpose", "h_trace_transpose", {"VC_M": m, "VC_N": n}, "transpose, involution (data movement, IEEE); trace", mode="ieee" if n <= 1 else "ring",
                    fns=["MatrixTranspose", "MatrixTrace"]))
-    for m in ([1, 2, 3, 4] if tier == "quick" else [1, 2, 3, 4, 5]):
+    for m in ([1, 2, 3, 4] if tier == "quick" else [1, 2, 3, 4, 5, 6]):   # 17 rows (tried, for a seeded size-dependent sort) did not finish in 300 s
         J.extend(R("sort", "h_sort", {"VC_M": m}, "MatrixSort / MatrixReverseSort: output rows are a permutation of the input rows ordered by the key column", mode="ieee",
                    fns=["MatrixSort", "MatrixReverseSort"]))
     return J
